@@ -2,6 +2,7 @@
 instrument the generic variant, run the real library and the model side by side."""
 import contextlib
 import signal
+import sys
 import threading
 
 from . import common, model, monitors, render, spec
@@ -20,8 +21,36 @@ MAX_CASE_TIMEOUTS = 12
 _timeouts = [0]
 
 
-def note_timeout():
+TIMEOUT_CASES = []      # (what, class name, input) of the first few expiries: reported in the evidence
+
+
+_slow_classes = {}      # (module, qualified name) -> number of expiries: a class that expired twice is not run again (a declaration on which the
+                        # library does not terminate - e.g. an until-loop whose elements jump back to an absolute position -
+                        # would otherwise eat the whole budget of the run with one family)
+
+
+def _ckey(cls):
+    return (getattr(cls, "__module__", None), getattr(cls, "__qualname__", None))
+
+
+def gives_up_on(cls):
+    return _slow_classes.get(_ckey(cls), 0) >= 2
+
+
+def note_timeout(what="", cls=None, raw=None):
+    if cls is not None:
+        _slow_classes[_ckey(cls)] = _slow_classes.get(_ckey(cls), 0) + 1
+        if _slow_classes[_ckey(cls)] > 1:
+            return              # counted once per class
     _timeouts[0] += 1
+    if len(TIMEOUT_CASES) < 4:
+        import inspect
+        try:
+            src = inspect.getsource(sys.modules[cls.__module__]) if cls is not None else None
+        except Exception:
+            src = None
+        TIMEOUT_CASES.append({"call": what, "class": getattr(cls, "__name__", None), "input": raw.hex() if isinstance(raw, (bytes, bytearray)) else None,
+                              "source": src[-3000:] if src else None})
     if _timeouts[0] > MAX_CASE_TIMEOUTS:
         raise TooManyTimeouts("%d library calls did not return within %ss" % (_timeouts[0], CASE_TIME_LIMIT))
 
@@ -78,6 +107,8 @@ class LibResult:
 def lib_unpack(cls, raw, offset=0):
     import bisturi.packet as bp
     _END.value = None
+    if gives_up_on(cls):
+        return LibResult("timeout")
     try:
         with time_limit(CASE_TIME_LIMIT):
             if offset:
@@ -85,7 +116,7 @@ def lib_unpack(cls, raw, offset=0):
             else:
                 pkt = cls.unpack(raw)
     except CaseTimeout:
-        note_timeout()
+        note_timeout("unpack", cls, bytes(raw) if isinstance(raw, (bytes, bytearray)) else None)
         return LibResult("timeout")
     except bp.PacketError as e:
         return LibResult("packeterror", err=e)
@@ -98,11 +129,13 @@ def lib_unpack(cls, raw, offset=0):
 
 def lib_pack(pkt):
     import bisturi.packet as bp
+    if gives_up_on(type(pkt)):
+        return LibResult("timeout")
     try:
         with time_limit(CASE_TIME_LIMIT):
             out = pkt.pack()
     except CaseTimeout:
-        note_timeout()
+        note_timeout("pack", type(pkt), None)
         return LibResult("timeout")
     except bp.PacketError as e:
         return LibResult("packeterror", err=e)
